@@ -175,7 +175,7 @@ def protocol_probes(acc, d, driver, seed):
 
 def units(tier, seed):
     us = [{"kind": "proto", "driver": d, "seed": seed} for d in ("h5", "ih5", "ih5mf")]
-    us += [dict(u, kind="vis") for u in CC.make_units(tier, seed, 420, 6000)]
+    us += [dict(u, kind="vis") for u in CC.make_units(tier, seed, 300, 6000)]
     return us
 
 
